@@ -771,6 +771,49 @@ pub fn run_c12(args: &Args, seed: u64, tier: &str, report: &Report) -> String {
         }
         None
     };
+    // (c) a whole new game after reset(), in lockstep with a fresh state: k searches, reset, then up to 260 searches of a
+    // small pool of positions (so that what the tables remember matters) compared one by one - "behaves exactly like a
+    // freshly started one" is about every later search, not only the first
+    let lockstep = |k: u64, pool: &[(String, Vec<String>)], l: &mut Local| -> Option<(String, String)> {
+        let games: Vec<Game> = pool.iter().filter_map(|(f, m)| build_game(f, m).map(|x| x.0)).collect();
+        if games.is_empty() {
+            return None;
+        }
+        let mut used = PersistentState::new(1);
+        for j in 0..k {
+            let _ = do_search(&games[j as usize % games.len()], &mut used, &Limit::Depth(1), 0);
+        }
+        let _ = used.reset();
+        let mut fresh = PersistentState::new(1);
+        let n = (256 - k % 256) + 3;
+        l.feat("lockstep_games_after_reset");
+        for j in 0..n {
+            let g = &games[j as usize % games.len()];
+            let a = do_search(g, &mut fresh, &Limit::Depth(3), 0).ok().map(|o| transcript(&o));
+            let b = do_search(g, &mut used, &Limit::Depth(3), 0).ok().map(|o| transcript(&o));
+            l.evaluations += 2;
+            l.feat("lockstep_searches_compared");
+            if let (Some(a), Some(b)) = (a, b) {
+                if a != b {
+                    return Some(("c12.reset-not-fresh.later-search".into(), format!("after {k} searches and reset(), search number {} of the new game differs from search number {} of a freshly started engine:\n--- fresh\n{a}--- after reset\n{b}", j + 1, j + 1)));
+                }
+            }
+        }
+        None
+    };
+    if let Some(c) = args.get("--lockstep") {
+        let mut l = Local::default();
+        l.distinct.insert(1);
+        l.distinct.insert(2);
+        let f: Vec<&str> = c.split('#').collect();
+        let pool: Vec<(String, Vec<String>)> = f[1..].iter().filter_map(|x| x.split_once('|')).map(|(a, b)| (a.to_string(), b.split_whitespace().map(|t| t.to_string()).collect())).collect();
+        if let Some((sig, what)) = lockstep(f[0].parse().unwrap_or(1), &pool, &mut l) {
+            report.violation(Violation { monitor: "c12".into(), signature: sig, what, replay_args: vec![], detail: J::Null });
+        }
+        l.evaluations = l.evaluations.max(1);
+        report.merge_local(&mut l);
+        return rule.into();
+    }
     if let Some(c) = args.get("--case") {
         let mut l = Local::default();
         l.distinct.insert(1);
@@ -818,6 +861,27 @@ pub fn run_c12(args: &Args, seed: u64, tier: &str, report: &Report) -> String {
             // one shard in four runs its second pass under load
             if let Some((sig, what)) = one(&case, &mut l, shard % 4 == 0 && i % 8 == 0) {
                 report.violation(Violation { monitor: "c12".into(), signature: sig, what, replay_args: vec!["c12".into(), "--case".into(), enc], detail: J::Null });
+            }
+            report.merge_local(&mut l);
+        }
+        // (c) one lockstep game per shard (thorough: four)
+        for _ in 0..(if thorough { 4 } else { 1 }) {
+            let mut pool: Vec<(String, Vec<String>)> = vec![];
+            let mut guard = 0;
+            while pool.len() < 4 && guard < 200 {
+                guard += 1;
+                if let Some((fen, moves, p)) = random_position(&mut rng, &roots, &mut l) {
+                    let queens = p.b.iter().flatten().filter(|pc| pc.k == Kind::Q).count();
+                    if queens < 6 && !p.legal_moves().is_empty() {
+                        pool.push((fen, moves));
+                    }
+                }
+            }
+            let k = 1 + rng.below(300);
+            let enc = format!("{k}#{}", pool.iter().map(|(f, m)| format!("{f}|{}", m.join(" "))).collect::<Vec<_>>().join("#"));
+            l.distinct.insert(hash_str(&enc));
+            if let Some((sig, what)) = lockstep(k, &pool, &mut l) {
+                report.violation(Violation { monitor: "c12".into(), signature: sig, what, replay_args: vec!["c12".into(), "--lockstep".into(), enc], detail: J::Null });
             }
             report.merge_local(&mut l);
         }
